@@ -54,6 +54,7 @@ CONFIGS = {
     "tsan256": dict(cmake=["-DMULTI=PTHREAD"], cflags=TSAN, san="thread"),
     "trace256": dict(cmake=[], cflags=TRACE, via="define", san="trace"),
     "trace255": dict(cmake=["-DFP_PRIME=255"], cflags=TRACE, via="define", san="trace"),
+    "trace381": dict(cmake=["-DFP_PRIME=381"], cflags=TRACE, via="define", san="trace"),
     "rsa-pkcs1": dict(cmake=["-DCP_RSAPD=PKCS1"], cflags=SAN_GATE),
     "rsa-basic": dict(cmake=["-DCP_RSAPD=BASIC"], cflags=SAN_GATE),
     "plain256": dict(cmake=[], cflags=PLAIN, san="none"),
